@@ -26,7 +26,7 @@ func init() {
 			"horizon: queries up to 3 days of playing time (whatever the tick count), tempo events in a single track",
 			"inverse domain: durations below 2^40 microseconds and tick rates below 10^7 ticks per second (statement)",
 		},
-		Require: []string{"lookahead_queries_inside_do", "tracks_with_events_2^32_ticks_apart", "track_selection_reads", "other_events_with_delta_between_tempo_events", "maps", "queries", "border_queries", "monotonic_pairs", "repeated_tick_maps", "late_first_event_maps", "do_events_compared", "inverse_triples", "queries_beyond_2^32_ticks", "do_filtered_events_compared", "tempo_track_not_first", "format2_maps", "large_tempo_maps"},
+		Require: []string{"lookahead_queries_inside_do", "tracks_with_events_2^32_ticks_apart", "track_selection_reads", "other_events_with_delta_between_tempo_events", "maps", "queries", "border_queries", "monotonic_pairs", "repeated_tick_maps", "late_first_event_maps", "do_events_compared", "inverse_triples", "queries_beyond_2^32_ticks", "do_filtered_events_compared", "tempo_track_not_first", "format2_maps", "large_tempo_maps", "tempo_maps_with_more_than_32768_events"},
 		Run:     runC11,
 	})
 }
@@ -38,12 +38,18 @@ func runC11(c *mon.Ctx) {
 			res = int64(r.Pick(1, 24, 48, 96, 120, 192, 240, 384, 480, 960, 1920, 15360, 32767))
 		}
 		ne := r.Intn(61)
+		huge := false // every library lookup is linear in the number of tempo events: a sample of the queries for huge maps
 		if r.P(1, 3) {
 			ne = r.Intn(4)
 		}
 		if i%500 == 499 {
 			ne = r.Pick(300, 1000, 3000) // large maps: lookups and the cumulative pass must scale
 			c.Count("large_tempo_maps", 1)
+		}
+		if i == 1 || (c.Thorough() && i%50_000 == 1) {
+			ne = r.Pick(33_000, 34_000, 40_000) // a rendered tempo automation: tens of thousands of tempo events
+			huge = true
+			c.Count("tempo_maps_with_more_than_32768_events", 1)
 		}
 		tm := &ref.TempoMap{Resolution: res}
 		var tr []ref.EncEv
@@ -188,7 +194,10 @@ func runC11(c *mon.Ctx) {
 			return got, true
 		}
 		// borders +-1
-		for _, e := range tm.Events {
+		for k, e := range tm.Events {
+			if huge && k%97 != 0 && k < len(tm.Events)-40 && (k < 32_700 || k > 32_800) {
+				continue
+			}
 			for _, dt := range []int64{-1, 0, 1} {
 				if t := e.AbsTick + dt; t >= 0 {
 					query(t, "border")
@@ -248,6 +257,14 @@ func runC11(c *mon.Ctx) {
 					c.Violation("do-absticks", fmt.Sprintf("track %d: AbsTicks %d, sum of deltas %d", te.TrackNo, te.AbsTicks, absT[te.TrackNo]), in, absT[te.TrackNo], te.AbsTicks)
 				}
 				num, segs := tm.Exact(te.AbsTicks)
+				doEvents++
+				if huge && doEvents%97 != 0 {
+					if !tm.Within(te.AbsMicroSeconds, num, int64(segs)) {
+						c.Violation("do-time", fmt.Sprintf("track %d event at tick %d: AbsMicroSeconds %d, exact %d", te.TrackNo, te.AbsTicks, te.AbsMicroSeconds, tm.Micros(num)), in, tm.Micros(num), te.AbsMicroSeconds)
+					}
+					return
+				}
+				doEvents--
 				if want := trd.SMF().TimeAt(te.AbsTicks); te.AbsMicroSeconds != want || !tm.Within(te.AbsMicroSeconds, num, int64(segs)) {
 					c.Violation("do-time", fmt.Sprintf("track %d event at tick %d: AbsMicroSeconds %d, TimeAt %d, exact %d", te.TrackNo, te.AbsTicks, te.AbsMicroSeconds, want, tm.Micros(num)), in, tm.Micros(num), te.AbsMicroSeconds)
 				}
@@ -263,7 +280,7 @@ func runC11(c *mon.Ctx) {
 		})
 		// reading a selection of tracks (also selections that leave out the track with the tempo events): the
 		// tempo map, and with it every time handed out, stays that of the whole file
-		if nt := len(ef.Tracks); nt > 1 {
+		if nt := len(ef.Tracks); nt > 1 && !huge {
 			var sel []int
 			for t := 0; t < nt; t++ {
 				if r.Bool() {
@@ -304,6 +321,9 @@ func runC11(c *mon.Ctx) {
 		}
 		// filtered iteration: the times handed out must still be the tempo-map values
 		for _, flt := range [][]midi.Type{{midi.NoteOnMsg}, {midi.NoteOffMsg}, {smf.MetaTempoMsg}, {midi.NoteOnMsg, midi.NoteOffMsg}} {
+			if huge {
+				break
+			}
 			trf := smf.ReadTracksFrom(bytes.NewReader(b)).Only(flt...)
 			if trf.Error() != nil {
 				break
